@@ -8,6 +8,7 @@ CONSTANTS
   Replica = {r1}
   MaxOps = 2
   MaxRejected = 0
+  ShapeAttempts = FALSE
   Defect_TieBreakByPartialCmp = FALSE
   Defect_NoopModifyUnchecked = FALSE
   Defect_RecreateAccepted = TRUE
